@@ -6,3 +6,4 @@
 import SymmModel.Props.C01
 import SymmModel.Props.C01b
 import SymmModel.Props.C01c
+import SymmModel.Props.C01d
